@@ -1,4 +1,5 @@
 import Qvnt.Props.C08
+import Qvnt.Props.Code.C08
 open Qvnt
 #print axioms C08_fill
 #print axioms C08_fill_repeats
@@ -13,3 +14,7 @@ open Qvnt
 #print axioms C08_and_comm
 #print axioms C08_and_assoc
 #print axioms C08_and_single
+#print axioms C08_code_twins
+#print axioms C08_code_sweep
+#print axioms C08_code_threads
+#print axioms C08_code_and
